@@ -5,7 +5,7 @@ from hypothesis import strategies as st
 
 from ..runner import Shard, Violation
 from ..gen import K, Uids
-from ..core import expect_return
+from ..core import expect_return, planned_name
 from ..driver import Ctx, run, loop_mode, close_orphans
 from ..values import sig, mats
 from ..doubles import make_source, Fn
@@ -45,10 +45,14 @@ def histories(draw, tier):
 
 def check(case):
     ctx_a, ctx_s = Ctx("a"), Ctx("s")
-    src_a = make_source(ctx_a, "s0", mats(case["items"]), {"fl": case["fl"]}, "a")
-    src_s = make_source(ctx_s, "s0", mats(case["items"]), {}, "s")
+    fault = case.get("fault")  # optional [resource, ordinal, exception name] (used by C06)
+    sfault = {"at": fault[1], "exc": fault[2]} if fault and fault[0] == "s0" else None
+    kfault = {"at": fault[1], "exc": fault[2]} if fault and fault[0] == "key" else None
+    fl = case["fl"] if not (sfault and case["fl"] == "list") else "iter"
+    src_a = make_source(ctx_a, "s0", mats(case["items"]), {"fl": fl, "fault": sfault}, "a")
+    src_s = make_source(ctx_s, "s0", mats(case["items"]), {"fault": sfault}, "s")
     if case["key"] is not None:
-        spec = {"kind": "table", "fl": case["keyfl"]}
+        spec = {"kind": "table", "fl": case["keyfl"], "fault": kfault}
         key_a = Fn(ctx_a, "key", spec, mats(case["key"]), "a").callable
         key_s = Fn(ctx_s, "key", spec, mats(case["key"]), "s").callable
         gb_a, gb_s = a.groupby(src_a.obj, key_a), itertools.groupby(src_s.obj, key_s)
@@ -66,13 +70,19 @@ def check(case):
                     got = ("group", sig(ka))
                 except StopAsyncIteration:
                     got, ga = ("stop",), None
+                except Exception as exc:
+                    got, ga = ("raise", type(exc).__name__, planned_name(ctx_a, exc)), None
                 try:
                     ks, gs = next(gb_s)
                     want = ("group", sig(ks))
                 except StopIteration:
                     want, gs = ("stop",), None
+                except Exception as exc:
+                    want, gs = ("raise", type(exc).__name__, planned_name(ctx_s, exc)), None
                 if got != want:
                     return ("groupby-advance-differs", f"step {step}: async={got} itertools={want}")
+                if got[0] == "raise":
+                    return None
                 if ga is not None:
                     if groups_a and taken_from_current >= 1:
                         flags["partial"] = True
@@ -89,13 +99,19 @@ def check(case):
                     got = ("item", sig(await groups_a[i].__anext__()))
                 except StopAsyncIteration:
                     got = ("stop",)
+                except Exception as exc:
+                    got = ("raise", type(exc).__name__, planned_name(ctx_a, exc))
                 try:
                     want = ("item", sig(next(groups_s[i])))
                 except StopIteration:
                     want = ("stop",)
+                except Exception as exc:
+                    want = ("raise", type(exc).__name__, planned_name(ctx_s, exc))
                 if got != want:
                     return ("group-item-differs", f"step {step} group {i} of {len(groups_a)}: "
                             f"async={got} itertools={want}")
+                if got[0] == "raise":
+                    return None
                 if i == len(groups_a) - 1 and got[0] == "item":
                     taken_from_current += 1
         return None
@@ -105,7 +121,8 @@ def check(case):
         problem = expect_return(outcome, "C16/history")
         close_orphans(ctx_a)
     if problem:
-        raise Violation(f"C16/{problem[0]}", problem[1])
+        raise Violation(f"{case.get('prop', 'C16')}/{problem[0]}", f"{problem[1]} fault={fault}",
+                        case=case if fault else None)
     nt = (flags["stale"] or flags["partial"]) and len(case["items"]) >= 3
     return {"evaluations": 1, "nontrivial": ["x"] if nt else [],
             "labels": {k: 1 for k, v in flags.items() if v}}
